@@ -232,3 +232,25 @@ def check_layering(circ, inserted):
                 if not pos[id(inserted[a])] < pos[id(inserted[b])]:
                     bad.append("items #%d and #%d (dependent) are in layers %d and %d" % (a, b, pos[id(inserted[a])], pos[id(inserted[b])]))
     return bad, pos
+
+
+def wide_program(rng, N, length=None):
+    """small gates on low / middle / high qubits of a wide register, so that gates overlap on high qubits only;
+    includes clifford_rotation_gate gates (which derive numpy-integer qubit labels themselves)."""
+    hot = sorted(set([0, 1, N // 2, N - 3, N - 2, N - 1] + [q for q in (31, 32, 63, 64, 65, 127, 128) if q < N]))
+    prog = []
+    for _ in range(length or int(rng.integers(4, 14))):
+        n = int(rng.integers(1, 4))
+        qs = sorted(int(x) for x in rng.choice(hot, size=min(n, len(hot)), replace=False))
+        kind = ["fmap", "bmap", "setgen", "gen", "gen"][int(rng.integers(5))]
+        if kind == "gen":
+            G = np.zeros(2 * N, dtype=np.int64)
+            for q in qs:
+                G[2 * q:2 * q + 2] = [(1, 0), (0, 1), (1, 1)][int(rng.integers(3))]
+            prog.append({"kind": "gen", "G": G, "PG": 2 * int(rng.integers(2)), "qubits": qs})
+        elif kind == "setgen":
+            prog.append({"kind": "setgen", "G": gen.rand_nonid(rng, len(qs)), "PG": 2 * int(rng.integers(2)), "qubits": qs})
+        else:
+            mg, mp = O.random_map(rng, len(qs))
+            prog.append({"kind": kind, "mg": mg, "mp": mp, "qubits": qs})
+    return prog, hot
